@@ -22,6 +22,10 @@ SHARD_TIMEOUT = {"quick": 600, "thorough": 3000}
 
 
 def plan(tier, seed):
+    return _plan_core(tier, seed) + [{"_label": "suite", "kind": "suite", "tier": tier, "_timeout": 2400}]
+
+
+def _plan_core(tier, seed):
     combos3 = list(itertools.product(range(4), repeat=3))
     shards = []
     k = 16
@@ -219,6 +223,10 @@ def check_refusals(rec):
 
 
 def work(spec, rec):
+    if spec.get("kind") == "suite":
+        harness.run_suite("C10", harness.SUITE_QUICK if spec["tier"] == "quick" else harness.SUITE_FULL, rec)
+        rec.case(("suite", spec["tier"]))
+        return
     r = harness.rng_for("C10", spec["seed"], spec["_label"])
     ctx = Ctx(rec, r)
     for (la, lb, lc) in spec["combos"]:
